@@ -280,6 +280,9 @@ class C07Monitor(histrun.Monitor):
                 if e:
                     self.foreign_pool.append(("blob-id", e.strip('"')))
             del self.foreign_pool[:-50]
+            # 0. the token the collection advertises right now (PROPFIND sync-token): a report from it is the empty change set.
+            #    (first, before the empty-token report below gives the server a chance to store anything)
+            self.check_report(w, p, col, tok, cur, cur, tok, where, "current-token")
             # 1. empty token: full membership
             self.check_report(w, p, col, None, {}, cur, tok, where, "empty-token")
             # 2. a few earlier tokens
